@@ -11,8 +11,9 @@ const (
 	verifPopBeforeWait = iota
 	verifPopCancelBroadcastDone
 	verifSeqnoBeforeCommit
-	verifLoopRequest // the event loop has received an API request and not yet handled it
-	verifPopTake     // a stream writer is about to take the next RPC out of its queue
+	verifLoopRequest   // the event loop has received an API request and not yet handled it
+	verifPopTake       // a stream writer is about to take the next RPC out of its queue
+	verifSendValidated // a validated message is about to be handed to the event loop
 )
 
 func verifYield(int) {}
@@ -20,3 +21,5 @@ func verifYield(int) {}
 func verifObserveSendRPC(peer.ID, *RPC) {}
 
 func verifYieldQueue(*rpcQueue, int) {}
+
+func verifYieldMsg(*Message, int) {}
